@@ -30,7 +30,7 @@ THRESHOLDS = {"quick": {**{f"c05:{f}:{c}": 30 for f in FORMATS for c in ("memory
                         "c05:collection-empty-member": 10, "c05:no-meta-at-all": 30, "c05:precollected": 30, "c05:with-meta": 100,
                         "c05:len>=100": 8, "c05:one-cell-solution": 30, "c05:two-cell-solution": 30, "c05:meta-keys-compared": 100,
                         "c05:auto-picked-minimal": 20, "c05:auto-picked-full": 20,
-                        "c05:solution>127-cells": 20, "c05:solution>255-cells": 3, "c05:len>127": 8, "c05:overwrite-same-config": 40, "c05:reserialize-after-in-place-edit": 120, "c05:float-metadata-key-many-digits": 60, "c05:collection-members-with-equal-configs": 20, "c05:filter-history": 100, "c05:filter-history-repeated-entry": 30, "c05:total-solution-cells>32767": 8, "c05:generator-kwarg:list": 20, "c05:generator-kwarg:tuple": 3, "c05:hand-built-from-callers-config": 5, "c05:config-compared-with-library-eq": 1000}}
+                        "c05:solution>127-cells": 20, "c05:solution>255-cells": 3, "c05:len>127": 8, "c05:overwrite-same-config": 40, "c05:reserialize-after-in-place-edit": 120, "c05:float-metadata-key-many-digits": 60, "c05:collection-members-with-equal-configs": 20, "c05:filter-history": 100, "c05:filter-history-repeated-entry": 30, "c05:total-solution-cells>32767": 8, "c05:generator-kwarg:list": 20, "c05:endpoint-options-in-config": 8, "c05:generator-kwarg:tuple": 3, "c05:hand-built-from-callers-config": 5, "c05:config-compared-with-library-eq": 1000}}
 THRESHOLDS["thorough"] = dict(THRESHOLDS["quick"])
 ANCHORS = ["maze_dataset.dataset.maze_dataset:MazeDataset.serialize", "maze_dataset.dataset.maze_dataset:MazeDataset.load",
            "maze_dataset.dataset.maze_dataset:MazeDataset._load_full", "maze_dataset.dataset.maze_dataset:MazeDataset._load_minimal",
@@ -107,7 +107,10 @@ def compare(ctx, snap, ds_after_cfg, loaded, mech, case, expect_meta_from=None, 
     if ds_cfg is not None and got == ds_after_cfg:
         ctx.tally("c05:config-compared-with-library-eq")
         kw_l, kw_d = loaded.cfg.maze_ctor_kwargs, ds_cfg.maze_ctor_kwargs
-        if repr(kw_l) != repr(kw_d) and isinstance(kw_l, dict) and isinstance(kw_d, dict) and set(kw_l) == set(kw_d):
+        ek_l, ek_d = loaded.cfg.endpoint_kwargs, ds_cfg.endpoint_kwargs
+        if repr(ek_l) != repr(ek_d):
+            ctx.violation(f"{mech}/config-not-equal/endpoint_kwargs", f"dataset holds {ek_d!r}, loaded config holds {ek_l!r}; loaded.cfg == ds.cfg is {loaded.cfg == ds_cfg}", case)
+        elif repr(kw_l) != repr(kw_d) and isinstance(kw_l, dict) and isinstance(kw_d, dict) and set(kw_l) == set(kw_d):
             kinds = sorted({f"{type(kw_d[k]).__name__}-read-back-as-{type(kw_l[k]).__name__}" for k in kw_d if type(kw_d[k]) is not type(kw_l[k])}) or ["values-differ"]
             for kd in kinds:
                 ctx.violation(f"{mech}/config-not-equal/maze_ctor_kwargs/{kd}", f"dataset holds {kw_d!r}, loaded config holds {kw_l!r}; loaded.cfg == ds.cfg is {loaded.cfg == ds_cfg}", case)
@@ -178,8 +181,17 @@ def build_dataset(ctx, rng, j):
                 kw["start_coord"] = sc if (j // 5) % 2 == 0 else tuple(sc)
                 tags.append("generator-kwarg:" + type(kw["start_coord"]).__name__)
                 rewrap = (j // 10) % 3 != 2
+            ek = {}
+            if j % 5 == 4 and g >= 2 and (gen, kw) in (("gen_dfs", {}), ("gen_prim", {})):
+                # endpoint options in the configuration (coordinate lists hold tuples, the documented type)
+                ek = [dict(allowed_start=[(0, 0)], endpoints_not_equal=True), dict(allowed_end=[(g - 1, g - 1), (0, g - 1)]),
+                      dict(deadend_start=True, deadend_end=True, endpoints_not_equal=True),
+                      dict(allowed_start=[(0, 0), (1, 0)], allowed_end=[(g - 1, g - 1)], endpoints_not_equal=False),
+                      dict(except_when_invalid=True, deadend_end=True)][(j // 5) % 5]
+                tags.append("endpoint-options-in-config")
+                rewrap = (j // 25) % 2 == 0
             cfg = MazeDatasetConfig(name=f"c05-{j}", grid_n=g, n_mazes=n, maze_ctor=GENERATORS_MAP[gen], maze_ctor_kwargs=kw,
-                                    seed=int(rng.integers(1 << 30)))
+                                    seed=int(rng.integers(1 << 30)), **(dict(endpoint_kwargs=ek) if ek else {}))
             ds = MazeDataset.generate(cfg)
             if rewrap:
                 # put together by hand from the caller's own config object (generate() works on a copy of it)
@@ -200,10 +212,10 @@ def build_dataset(ctx, rng, j):
                     tags.append("filter-history-repeated-entry")
             if kind == 1:
                 ds = ds.filter_by.collect_generation_meta()
-                tags = ["precollected"] + [t for t in tags if t.startswith(("filter-history", "generator-kwarg", "hand-built"))]
+                tags = ["precollected"] + [t for t in tags if t.startswith(("filter-history", "generator-kwarg", "hand-built", "endpoint-options"))]
             elif kind == 2 and rng.random() < 0.5:
                 ds = ds.filter_by.strip_generation_meta()
-                tags = ["no-meta-at-all"] + [t for t in tags if t.startswith(("filter-history", "generator-kwarg", "hand-built"))]
+                tags = ["no-meta-at-all"] + [t for t in tags if t.startswith(("filter-history", "generator-kwarg", "hand-built", "endpoint-options"))]
         else:
             # harness-built mazes: ragged solutions incl. one-cell, two-cell and maximal paths, no generation metadata
             mazes = []
